@@ -482,6 +482,105 @@ def run(ctx: Any, prog: Program) -> None:
         ctx.check('C17.N9', src_ is None, ins, c, f'the table of known classnames given to fixup_key (`{U(arg)[:50]}`) is computed from collapse_one\'s own maps (`{src_}`): whether a name-or-class value is renamed '
                   'then depends on which entities the map already holds, i.e. on earlier collapses and their order', text='classname table independent of the maps')
 
+    # ---- N10: $variables are looked up by their casefolded name ---------------------------------------------------------------------------------
+    # EntityFixup stores its table under casefolded names and the variable pattern is compiled with IGNORECASE: what the pattern matched keeps
+    # the template's own capitals.  Every lookup in the table made by substitute() (and its replacer) therefore folds the name first.
+    ctx.rule('C17.N10', 'EntityFixup.substitute looks a matched variable up under its casefolded name', floor=1)
+    vm17 = prog.module('vmf')
+    sub17 = vm17.func('EntityFixup.substitute')
+    tabs17 = {'self._fixup'} | {t.id for a in ast.walk(sub17) if isinstance(a, ast.Assign) and dotted(a.value) == 'self._fixup' for t in a.targets if isinstance(t, ast.Name)}
+    defs17: Dict[str, List[ast.AST]] = {}
+    for a in ast.walk(sub17):
+        if isinstance(a, ast.Assign):
+            for t in a.targets:
+                if isinstance(t, ast.Name):
+                    defs17.setdefault(t.id, []).append(a.value)
+    def _folded17(e: ast.AST, depth: int = 0) -> bool:
+        if isinstance(e, ast.Call) and isinstance(e.func, ast.Attribute) and e.func.attr == 'casefold':
+            return True
+        if isinstance(e, ast.Name) and e.id in defs17 and depth < 3:
+            return all(_folded17(d, depth + 1) for d in defs17[e.id])
+        return False
+    n_look = 0
+    for x in ast.walk(sub17):
+        key = None
+        if isinstance(x, ast.Subscript) and (dotted(x.value) or '') in tabs17 and isinstance(x.ctx, ast.Load):
+            key = x.slice
+        elif isinstance(x, ast.Call) and isinstance(x.func, ast.Attribute) and x.func.attr in ('get', 'pop') and (dotted(x.func.value) or '') in tabs17 and x.args:
+            key = x.args[0]
+        elif isinstance(x, ast.Compare) and len(x.ops) == 1 and isinstance(x.ops[0], (ast.In, ast.NotIn)) and (dotted(x.comparators[0]) or '') in tabs17:
+            key = x.left
+        if key is None:
+            continue
+        n_look += 1
+        ctx.check('C17.N10', _folded17(key), vm17, x, f'EntityFixup.substitute looks `{U(key)[:30]}` up in the fixup table as matched: the table is keyed by casefolded names and the pattern ignores case, so `$Skin` in a template '
+                  'finds nothing for the variable `skin` and is replaced by the default (or raises)', func='EntityFixup.substitute', text=f'lookup `{U(x)[:40]}` by casefolded name')
+    ctx.shape('C17.N10', n_look >= 1, vm17, sub17, 'no lookup in the fixup table found in EntityFixup.substitute', func='EntityFixup.substitute', text='table lookups in substitute()')
+    # ---- N11: replace values of a nested instance are renamed only when they can be names ---------------------------------------------------------
+    # collapse_one renames the $replace values of a func_instance inside the instance ("Valve's logic": anything that does not look like a
+    # number is taken for an entity name).  A value starting with a digit, `-` or `.` is a number or a vector: renaming it (`outer--64 0 16`)
+    # hands garbage to the nested instance.  The guard is evaluated for each of those first characters.
+    ctx.rule('C17.N11', 'nested-instance fixup values starting with a digit, "-" or "." are not renamed', floor=12)
+    ren = [a for a in walk_no_nested(co) if isinstance(a, ast.Assign) and isinstance(a.targets[0], ast.Subscript) and (dotted(a.targets[0].value) or '').endswith('.fixup')
+           and isinstance(a.value, ast.Call) and isinstance(a.value.func, ast.Attribute) and a.value.func.attr == 'fixup_name']
+    ctx.shape('C17.N11', len(ren) == 1 and len(ren[0].value.args) == 1 and isinstance(ren[0].value.args[0], ast.Name), ins, co, 'the renaming of nested-instance fixup values (`<ent>.fixup[key] = inst.fixup_name(value)`) was not found once',
+              func='collapse_one', text='nested fixup renaming')
+    if len(ren) == 1 and len(ren[0].value.args) == 1 and isinstance(ren[0].value.args[0], ast.Name):
+        vname = ren[0].value.args[0].id
+        guards = [a for a in _anc17(ins, ren[0], co) if isinstance(a, ast.If)]
+        class _Unknown(Exception):
+            pass
+        def _ev(t: ast.AST, ch: str) -> Any:
+            """Value of a guard expression when `value` is a string starting with `ch` (only the first character is inspected)."""
+            if isinstance(t, ast.Name) and t.id == vname:
+                return ch + ' 0 0'
+            if isinstance(t, ast.Constant):
+                return t.value
+            if isinstance(t, ast.Subscript) and isinstance(t.value, ast.Name) and t.value.id == vname:
+                if isinstance(t.slice, ast.Constant) and t.slice.value == 0:
+                    return ch
+                if isinstance(t.slice, ast.Slice) and t.slice.lower is None and isinstance(t.slice.upper, ast.Constant) and t.slice.upper.value == 1 and t.slice.step is None:
+                    return ch
+                raise _Unknown(U(t))
+            if isinstance(t, ast.UnaryOp) and isinstance(t.op, ast.Not):
+                return not _ev(t.operand, ch)
+            if isinstance(t, ast.BoolOp):
+                vals = [_ev(v, ch) for v in t.values]
+                return all(vals) if isinstance(t.op, ast.And) else any(vals)
+            if isinstance(t, ast.Compare) and len(t.ops) == 1:
+                l_, r_ = _ev(t.left, ch), _ev(t.comparators[0], ch)
+                op = t.ops[0]
+                if isinstance(op, ast.In):
+                    return l_ in r_
+                if isinstance(op, ast.NotIn):
+                    return l_ not in r_
+                if isinstance(op, ast.Eq):
+                    return l_ == r_
+                if isinstance(op, ast.NotEq):
+                    return l_ != r_
+                raise _Unknown(U(t))
+            if isinstance(t, (ast.Tuple, ast.List, ast.Set)):
+                return tuple(_ev(e, ch) for e in t.elts)
+            if isinstance(t, ast.Call) and isinstance(t.func, ast.Attribute) and not t.keywords:
+                recv = _ev(t.func.value, ch)
+                args = [_ev(a_, ch) for a_ in t.args]
+                if isinstance(recv, str) and t.func.attr in ('isdigit', 'isdecimal', 'isnumeric', 'isalpha', 'isalnum', 'isidentifier') and not args and len(recv) == 1:
+                    return getattr(recv, t.func.attr)()
+                if isinstance(recv, str) and t.func.attr == 'startswith' and len(args) == 1 and (isinstance(args[0], str) and len(args[0]) == 1 or isinstance(args[0], tuple) and all(isinstance(a_, str) and len(a_) == 1 for a_ in args[0])):
+                    return recv.startswith(args[0])
+                if isinstance(recv, str) and t.func.attr in ('casefold', 'lower') and not args and len(recv) == 1:
+                    return recv.lower()
+            raise _Unknown(U(t))
+        for ch in '-.0123456789':
+            try:
+                renamed = all(_ev(g.test, ch) if any(ren[0] is y for b in g.body for y in ast.walk(b)) else not _ev(g.test, ch) for g in guards)
+            except _Unknown as exc:
+                ctx.shape('C17.N11', False, ins, guards[0] if guards else ren[0], f'the guard of the nested fixup renaming contains `{str(exc)[:50]}`, which is not one of the first-character tests understood here', func='collapse_one',
+                          text='nested fixup renaming guard')
+                break
+            ctx.check('C17.N11', not renamed, ins, guards[0] if guards else ren[0], f'collapse_one renames a nested instance\'s replace value that starts with {ch!r} (guard `{" and ".join(U(g.test)[:60] for g in guards)}`): '
+                      f'`{ch} 0 0`-like numbers and vectors become `<prefix>-{ch} 0 0`, and the nested instance substitutes that text into positions and angles', func='collapse_one', text=f'value starting with {ch!r} is left alone')
+
     # ---- N7: keyvalues are fixed up only after every entity (and so every face) has been copied -------------------------------------------
     # side lists (`sides`) are remapped through inst.face_ids, which the copies fill: the collection the fix-up loop walks has to be complete
     # before the loop starts.  A generator that copies on demand interleaves the two, and an overlay placed before the brush it refers to
@@ -797,6 +896,8 @@ def n6_substitute(ctx: Any, vm: Any) -> None:
 
 
 MUTANTS = [
+    {'id': 'nested_fixup_negative_numbers_renamed', 'file': 'instancing.py', 'find': "            if value and value[0] not in '@!-.0123456789':", 'replace': "            if value and value[0] not in '@!0123456789':", 'expect': 'C17.N11', 'note': 'round 11'},
+    {'id': 'substitute_lookup_not_folded', 'file': 'vmf.py', 'find': "                res = fixup[varname.casefold()].value", 'replace': "                res = fixup[varname.lower()].value", 'expect': 'C17.N10', 'note': 'round 11: lower() is not casefold()'},
     {'id': 'auto_instance_names_numbered_per_pass', 'file': 'instancing.py', 'find': "            if not inst.name:\n                auto_inst_count += 1\n                inst.name = f'InstanceAuto{auto_inst_count}'\n", 'replace': "", 'extra': [{'file': 'instancing.py', 'find': "        for inst_ent in instances:\n            inst = Instance.from_entity(inst_ent)", 'replace': "        for auto_ind, unnamed_ent in enumerate([e for e in instances if not e['targetname']], start=1):\n            unnamed_ent['targetname'] = f'InstanceAuto{auto_ind}'\n        for inst_ent in instances:\n            inst = Instance.from_entity(inst_ent)"}], 'expect': 'C17.N2'},
     {'id': 'side_localise_inline_v_offset_by_u_scale', 'file': 'vmf.py', 'find': "        self.uaxis = self.uaxis.localise(origin, orient)\n        self.vaxis = self.vaxis.localise(origin, orient)\n", 'replace': "        u_axis = self.uaxis.vec() @ orient\n        v_axis = self.vaxis.vec() @ orient\n        self.uaxis.x, self.uaxis.y, self.uaxis.z = u_axis\n        self.vaxis.x, self.vaxis.y, self.vaxis.z = v_axis\n        self.uaxis.offset -= Vec.dot(u_axis, origin) / self.uaxis.scale\n        self.vaxis.offset -= Vec.dot(v_axis, origin) / self.uaxis.scale\n", 'expect': 'C17.N3'},
     {'id': 'ok_side_localise_inline', 'file': 'vmf.py', 'find': "        self.uaxis = self.uaxis.localise(origin, orient)\n        self.vaxis = self.vaxis.localise(origin, orient)\n", 'replace': "        u_axis = self.uaxis.vec() @ orient\n        v_axis = self.vaxis.vec() @ orient\n        self.uaxis.x, self.uaxis.y, self.uaxis.z = u_axis\n        self.vaxis.x, self.vaxis.y, self.vaxis.z = v_axis\n        self.uaxis.offset -= Vec.dot(u_axis, origin) / self.uaxis.scale\n        self.vaxis.offset -= Vec.dot(v_axis, origin) / self.vaxis.scale\n", 'expect': None, 'refuse_ok': True, 'note': 'negative control: the axis update written out in place with the right scale'},
